@@ -94,6 +94,7 @@ type Object struct {
 	props map[string]*Prop
 	order []string
 	Call  func(m *Machine, this Value, args []Value) Value // [[Call]]; nil = not callable
+	Prim  *Value                                           // [[PrimitiveValue]] of String/Number/Boolean objects
 }
 
 // Throw is an abrupt completion of type throw. Class is the name of a native error
@@ -106,6 +107,7 @@ type Throw struct {
 // Machine is one realm: the intrinsic prototypes, the global object and the observation log.
 type Machine struct {
 	ObjectProto, ArrayProto, FunctionProto, Global *Object
+	StringProto, NumberProto, BooleanProto         *Object
 	Log                                            []string
 	// LiteralLength: follow the letter of ES5.1 for concat/slice/splice results (no final
 	// [[Put]] of "length": trailing holes do not count) instead of universal practice / ES2015.
@@ -121,6 +123,7 @@ type Machine struct {
 	JoinSeparatorFirst      bool // join converts the separator before reading length
 	LengthSingleConversion  bool // array length assignment converts the value once instead of ToUint32 + ToNumber
 	LengthEqualRejects      bool // defining length with its current value is rejected when length is non-writable (> instead of >= in 3.f)
+	ReverseReturnsThis      bool // reverse returns the this value as passed instead of ToObject(this)
 	ReverseDeleteFirst      bool // reverse deletes the upper element before putting the lower one (lower absent, upper present)
 	// MaxShrink records the largest number of indices one length assignment had to walk over
 	// (15.4.5.1 step 3.l); the checks use it to keep legitimately slow cases out of otto.
@@ -192,6 +195,28 @@ func NewMachine() *Machine {
 	hidden(m.ObjectProto, "toString", func(m *Machine, this Value, _ []Value) Value { return m.objectProtoToString(this) })
 	hidden(m.ObjectProto, "valueOf", func(m *Machine, this Value, _ []Value) Value { return ObjV(m.ToObject(this)) })
 	hidden(m.FunctionProto, "toString", func(m *Machine, this Value, _ []Value) Value { return StrV("function () { [native code] }") })
+	// 15.5.4, 15.7.4, 15.6.4: the prototype objects are themselves String / Number / Boolean objects
+	es, zero, no := StrV(""), NumV(0), BoolV(false)
+	m.StringProto = m.newObj("String", m.ObjectProto)
+	m.StringProto.Name, m.StringProto.Prim = "SP", &es
+	m.StringProto.set("length", &Prop{V: NumV(0)})
+	m.NumberProto = m.newObj("Number", m.ObjectProto)
+	m.NumberProto.Name, m.NumberProto.Prim = "NP", &zero
+	m.BooleanProto = m.newObj("Boolean", m.ObjectProto)
+	m.BooleanProto.Name, m.BooleanProto.Prim = "BP", &no
+	for _, p := range []*Object{m.StringProto, m.NumberProto, m.BooleanProto} {
+		prim := func(m *Machine, this Value, _ []Value) Value {
+			if this.K == Obj {
+				if this.O.Prim == nil {
+					m.ThrowType()
+				}
+				return *this.O.Prim
+			}
+			return this
+		}
+		hidden(p, "valueOf", prim)
+		hidden(p, "toString", func(m *Machine, this Value, a []Value) Value { return StrV(m.ToString(prim(m, this, a))) })
+	}
 	hidden(m.ArrayProto, "toString", func(m *Machine, this Value, a []Value) Value { return m.ArrayToString(this, a) })
 	hidden(m.ArrayProto, "join", func(m *Machine, this Value, a []Value) Value { return m.Join(this, a) })
 	return m
@@ -604,8 +629,26 @@ func (m *Machine) ToObject(v Value) *Object {
 		m.ThrowType()
 	case Obj:
 		return v.O
+	case Str:
+		// 15.5.5: length and one property per character, all read-only (15.5.5.2 materialised:
+		// the primitive value never changes, so the exotic [[GetOwnProperty]] is equivalent to own data properties)
+		o := m.newObj("String", m.StringProto)
+		o.Prim = &v
+		u := harness.UTF16(v.S)
+		for i, c := range u {
+			ch, _ := harness.FromUTF16([]uint16{c})
+			o.set(strconv.Itoa(i), &Prop{V: StrV(ch), E: true})
+		}
+		o.set("length", &Prop{V: NumV(float64(len(u)))})
+		return o
+	case Num:
+		o := m.newObj("Number", m.NumberProto)
+		o.Prim = &v
+		return o
 	}
-	panic("m08: ToObject of a primitive is outside the modelled domain")
+	o := m.newObj("Boolean", m.BooleanProto)
+	o.Prim = &v
+	return o
 }
 
 // ---- canonical rendering (must agree with the JS prelude of props/c08) ---------------------------------
